@@ -120,7 +120,8 @@ theorem CtIdle.start {b : Buf} {c : PContacts} (h : CtIdle b c) (o : Nat) (ho : 
 theorem contactsLoop_safe (b : Buf) (offs : Nat) (c : PContacts) (hfit : b.size ≤ 65535) (h : CtSafe b offs c) :
     CtOut b (contactsLoop b offs c).2.2 ∧
     ((contactsLoop b offs c).2.1 = .moreBytes → CtSafe b (contactsLoop b offs c).1 (contactsLoop b offs c).2.2) ∧
-    ((contactsLoop b offs c).2.1 = .ok → CtIdle b (contactsLoop b offs c).2.2 ∧ (contactsLoop b offs c).1 ≤ b.size) := by
+    ((contactsLoop b offs c).2.1 = .ok → CtIdle b (contactsLoop b offs c).2.2 ∧ (contactsLoop b offs c).1 ≤ b.size) ∧
+    (contactsLoop b offs c).1 ≤ b.size := by
   induction hk : b.size - offs using Nat.strongRecOn generalizing offs c with
   | _ k ih =>
     rw [contactsLoop]
@@ -151,7 +152,7 @@ theorem contactsLoop_safe (b : Buf) (offs : Nat) (c : PContacts) (hfit : b.size 
         (hvd.1 (Or.inl rfl))
       have hf := (parseNameAddrPVal_post HdrContact b offs c.cur hp (Or.inl rfl)).1
       have d := done_facts c pf h.clean hf
-      exact ⟨hso.1, (fun hh => by cases hh), fun _ => ⟨⟨hso.1, d.2.1, d.1⟩, hsafe.1.ho⟩⟩
+      exact ⟨hso.1, (fun hh => by cases hh), (fun _ => ⟨⟨hso.1, d.2.1, d.1⟩, hsafe.1.ho⟩), hsafe.1.ho⟩
     case moreValues =>
       have hso := step_out b c pf lo next hfit (fun _ => Or.inr trivial) h.stored h.lastF h.firstF h.pnc hsafe.1 hl1
         (hvd.1 (Or.inr rfl))
@@ -178,7 +179,7 @@ theorem contactsLoop_safe (b : Buf) (offs : Nat) (c : PContacts) (hfit : b.size 
         exact ih (b.size - next) (by omega) next (c.next pf) hnsafe rfl
       · rw [if_neg hg]
         exact ⟨⟨PField.inside_mono hlh hsafe.1.ho, hnsafe.stored,
-          hnsafe.lastF, hnsafe.firstF, hnsafe.pnc⟩, (fun hh => by cases hh), (fun hh => by cases hh)⟩
+          hnsafe.lastF, hnsafe.firstF, hnsafe.pnc⟩, (fun hh => by cases hh), (fun hh => by cases hh), hsafe.1.ho⟩
     case moreBytes =>
       have s1 := setCur_scalars c pf
       have hE := hsafe.2 rfl
@@ -200,9 +201,9 @@ theorem contactsLoop_safe (b : Buf) (offs : Nat) (c : PContacts) (hfit : b.size 
           rw [setCur_vals_ne c pf k (by omega)]; exact h.stored k hk hs
       have hho := h.ho
       exact ⟨⟨by rw [s1.2.2.2.1]; exact PField.inside_mono hl1 (by omega), hcs.stored,
-        hcs.lastF, hcs.firstF, hcs.pnc⟩, fun _ => hcs, (fun hh => by cases hh)⟩
+        hcs.lastF, hcs.firstF, hcs.pnc⟩, (fun _ => hcs), (fun hh => by cases hh), hsafe.1.ho⟩
     all_goals
-      refine ⟨?_, (fun hh => by cases hh), (fun hh => by cases hh)⟩
+      refine ⟨?_, (fun hh => by cases hh), (fun hh => by cases hh), hsafe.1.ho⟩
       split
       · have s1 := setCur_scalars c pf
         exact hout _ s1.2.2.2.1 s1.2.2.2.2 (by rw [setCur_n]; omega) (setCur_size c pf)
@@ -230,7 +231,8 @@ theorem bump_wrap (c : PContacts) (k : Nat) :
 theorem parseAllContactValues_safe (b : Buf) (o : Nat) (c : PContacts) (hfit : b.size ≤ 65535) (h : CtSafe b o c) :
     CtOut b (parseAllContactValues b o c).2.2 ∧
     ((parseAllContactValues b o c).2.1 = .moreBytes → CtSafe b (parseAllContactValues b o c).1 (parseAllContactValues b o c).2.2) ∧
-    ((parseAllContactValues b o c).2.1 = .ok → CtIdle b (parseAllContactValues b o c).2.2 ∧ (parseAllContactValues b o c).1 ≤ b.size) := by
+    ((parseAllContactValues b o c).2.1 = .ok → CtIdle b (parseAllContactValues b o c).2.2 ∧ (parseAllContactValues b o c).1 ≤ b.size) ∧
+    (parseAllContactValues b o c).1 ≤ b.size := by
   rw [parseAllContactValues_eq_wrap]
   exact contactsLoop_safe b o c.wrap hfit h.wrap
 
@@ -243,7 +245,8 @@ theorem parseAllContactValues_safe_new (b : Buf) (o : Nat) (c : PContacts) (k : 
         (parseAllContactValues b o { c with hNo := k, lastHVal := {} }).2.2) ∧
     ((parseAllContactValues b o { c with hNo := k, lastHVal := {} }).2.1 = .ok →
       CtIdle b (parseAllContactValues b o { c with hNo := k, lastHVal := {} }).2.2 ∧
-      (parseAllContactValues b o { c with hNo := k, lastHVal := {} }).1 ≤ b.size) := by
+      (parseAllContactValues b o { c with hNo := k, lastHVal := {} }).1 ≤ b.size) ∧
+    (parseAllContactValues b o { c with hNo := k, lastHVal := {} }).1 ≤ b.size := by
   rw [parseAllContactValues_eq_wrap, bump_wrap]
   exact contactsLoop_safe b o _ hfit (h.start o ho k)
 
